@@ -35,7 +35,7 @@ MODEL_FILES = ['SF/GroupVal.v', 'SF/Window.v', 'SF/GroupCode.v', 'Gen/Gen_c13.v'
 IMPORTS = 'Require Import SF.Prelude SF.PySlice SF.Value SF.Group SF.GroupVal SF.Window Gen.Gen_c13.'
 RULE = ('api strata: public iter_group_items / iter_group_labels_items / iter_group*.apply / iter_window_items calls on generated Series and Frames -- exhaustive value sequences of length <= 4 over 3 values for Series, '
         'every block layout of frames with <= 3 columns (thorough: <= 4), both axes, element/list/slice keys of 1-3 positions, key dtypes int/str/bool/float/object(orderable, mixed, colliding str()), flat and hierarchical axes, '
-        'one group / all-distinct / duplicated keys; windows: the grid n<=6, size<=4, step<=3, shifts in [-3,3], increment in [-1,1], window_sized on/off (thorough: complete, quick: boundary + random sample) on Series, plus Frames on both axes; '
+        'one group / all-distinct / duplicated keys; windows: the grid n<=6, size<=4, step<=3, shifts in [-3,3], increment in [-1,1], window_sized on/off (thorough: complete, quick: boundary + random sample) on Series (Series and array windows), plus Frames on both axes; longer axes (20-48 positions, 2-3 distinct keys) on the sort path so that an unstable sort shows; '
         'kernel stratum: util.array_to_groups_and_locations called directly; malformed stream: absent key, invalid axis, size<=0, step<0. '
         'A group case is non-trivial when it has >= 2 groups and some group with >= 2 members; a window case when at least one window is yielded and at least one anchor is rejected or clipped; '
         'distinct = distinct (call, input, parameters).')
@@ -746,6 +746,34 @@ def frame_group_cases(ctx):
         yield frame_group_case(ctx, spec, layout, axis, keykind, positions, 'api:frame.iter_group.apply', apply_=True)
 
 
+def long_group_cases(ctx):
+    '''longer axes with few distinct keys: order inside the groups depends on the sort being stable
+    (NumPy's unstable kinds only show it beyond 16 elements)'''
+    import static_frame as sf
+    for _ in range(ctx.n(8, 60)):
+        n = ctx.rng.randint(20, 48)
+        kind = ctx.rng.choice(['int', 'str', 'float', 'bool'])
+        k = ctx.rng.randint(2, 3) if kind != 'bool' else 2
+        pool = _VALS[kind][:k]
+        keyv = [ctx.rng.choice(pool) for _ in range(n)]
+        arrays = [make_array(kind, keyv), np.arange(n, dtype=np.int64)]
+        axis = ctx.rng.choice([0, 0, 1])
+        if axis == 0:
+            spec = {'kinds': [kind, 'int'], 'cols': [keyv, list(range(n))], 'arrays': arrays, 'dtypes': [a.dtype for a in arrays],
+                    'index_labels': [f'r{i}' for i in range(n)], 'col_labels': ['k', 'id'], 'index': sf.Index([f'r{i}' for i in range(n)]),
+                    'columns': sf.Index(['k', 'id']), 'layouts': list(zoo.layouts_for([a.dtype for a in arrays])), 'mode': 'dup',
+                    'hier_index': False, 'hier_columns': False}
+        else:   # group n int columns by the first of two rows
+            ik = [ctx.rng.choice([1, 2, 3]) for _ in range(n)]
+            arrays = [np.array([ik[j], j], dtype=np.int64) for j in range(n)]
+            spec = {'kinds': ['int'] * n, 'cols': [[ik[j], j] for j in range(n)], 'arrays': arrays, 'dtypes': [a.dtype for a in arrays],
+                    'index_labels': ['k', 'id'], 'col_labels': [f'c{j}' for j in range(n)], 'index': sf.Index(['k', 'id']),
+                    'columns': sf.Index([f'c{j}' for j in range(n)]), 'layouts': [tuple((1, False) for _ in range(n)), ((n, True),)], 'mode': 'dup',
+                    'hier_index': False, 'hier_columns': False}
+        layout = ctx.rng.choice(spec['layouts'])
+        yield frame_group_case(ctx, spec, layout, axis, 'element', [0], 'api:frame.iter_group_items[long]')
+
+
 def labels_cases(ctx):
     '''iter_group_labels_items / iter_group_labels(...).apply on hierarchical (and a few flat) axes'''
     import static_frame as sf
@@ -869,12 +897,16 @@ def witems_lit(items):
     return lit.lst([f'({lit.val(l)}, {rows_lit(rows)})' for l, rows in items])
 
 
-def window_case(ctx, c, axis, p, stratum, desc):
+def window_case(ctx, c, axis, p, stratum, desc, as_array=False):
     rows = axis_rows(c, axis)
     kw = dict(p)
     if c.ndim == 2:
         kw['axis'] = axis
-    st, out = run(lambda: [(key_py(l), axis_rows(w, axis)) for l, w in c.iter_window_items(**kw)])
+    if as_array:    # Series with pairwise distinct values: the array window identifies its rows
+        by_value = {cells[0]: (l, cells) for l, cells in rows}
+        st, out = run(lambda: [(key_py(l), [by_value[v] for v in w.tolist()]) for l, w in c.iter_window_array_items(**kw)])
+    else:
+        st, out = run(lambda: [(key_py(l), axis_rows(w, axis)) for l, w in c.iter_window_items(**kw)])
     obs = res_lit(st, out, witems_lit)
     n = len(rows)
     yielded = len(out) if st == 'ok' else 0
@@ -910,6 +942,9 @@ def window_cases(ctx):
     series = {n: sf.Series(np.arange(n) * 10, index=sf.Index([chr(97 + i) for i in range(n)]) if n else sf.Index(())) for n in range(0, 7)}
     for n, p in grid:
         yield window_case(ctx, series[n], 0, p, 'api:series.iter_window_items', {'call': 'sf.Series(range(n)*10, index=a,b,c..).iter_window_items(**params)', 'n': n})
+    for n, p in ctx.rng.sample(grid, min(len(grid), ctx.n(100, 1500))):
+        yield window_case(ctx, series[n], 0, p, 'api:series.iter_window_array_items',
+                          {'call': 'sf.Series(range(n)*10, index=a,b,c..).iter_window_array_items(**params)', 'n': n}, as_array=True)
     # frames, both axes, hierarchical labels, all layouts of small frames
     for _ in range(ctx.n(60, 600)):
         family = ctx.rng.choice(['N', 'M', 'I'])
@@ -995,6 +1030,7 @@ def cases(ctx):
     yield from corpus_cases(ctx)
     yield from series_group_cases(ctx)
     yield from frame_group_cases(ctx)
+    yield from long_group_cases(ctx)
     yield from labels_cases(ctx)
     yield from kernel_cases(ctx)
     yield from window_cases(ctx)
